@@ -124,6 +124,39 @@ def check_budget(mode):
         b.close()
 
 
+def check_explain_raw_command(mode):
+    """`tally explain "<raw description>" --amount A` for descriptions that are not in the data: the command must report what up would assign to such a
+    transaction (same rules, mode, transforms and supplemental rows)"""
+    from tally.config_loader import load_config, load_supplemental_sources
+    b = make_budget(mode)
+    try:
+        path = os.path.join(b.config, 'merchants.rules')
+        cfg = load_config(b.config)
+        supp = load_supplemental_sources(cfg, b.config)
+        for desc, amount in (('ORDER 78 STORE', 11.0), ('ORDER 12345 STORE', 11.0), ('PAY REF77 NEW', 5.0), ('CORNER BAKERY TWO', 8.0), ('COFFEE ROASTERS OUTLET', 650.0)):
+            clear_engine_cache()
+            rules = get_all_rules(path, match_mode=mode)
+            tr = get_transforms(path, match_mode=mode)
+            want = normalize_merchant(desc, rules, amount=amount, transforms=tr, data_sources=supp)[:3]
+            clear_engine_cache()
+            out, err, code = run_cmd(cmd_explain, merchant=[desc], config=b.config, settings='settings.yaml', format='json', verbose=0, amount=amount,
+                                     view=None, category=None, tags=None, month=None, location=None)
+            O.case(('explain_raw', mode, desc))
+            try:
+                ex = json.loads(out[out.index('{'):])
+                got = (ex.get('merchant'), ex.get('category'), ex.get('subcategory'))
+            except Exception:
+                got = ('<no explanation>', 'Unknown', 'Unknown') if want[1] == 'Unknown' else ('<no explanation>', None, None)
+            if want[1] == 'Unknown':
+                continue       # the command prints suggestions instead of a trace for descriptions no rule claims
+            if tuple(want) != got:
+                O.fail('C16.explain_raw_description.differs.%s' % mode, {'rule_mode': mode, 'raw': desc, 'amount': amount}, list(want), list(got),
+                       'tally explain "<description>" --amount vs normalize_merchant with the supplemental rows')
+        clear_engine_cache()
+    finally:
+        b.close()
+
+
 def check_explain_description(mode):
     """raw description (+ amount) through explain_description versus what normalize_merchant (what up applies) returns"""
     b = make_budget(mode)
@@ -153,7 +186,9 @@ def check_explain_description(mode):
 def main():
     if O.witness:
         w = O.witness
-        if 'description' in w:
+        if 'raw' in w:
+            check_explain_raw_command(w['rule_mode'])
+        elif 'description' in w:
             check_explain_description(w['rule_mode'])
         else:
             check_budget(w['rule_mode'])
@@ -161,6 +196,7 @@ def main():
     for mode in ('first_match', 'most_specific'):
         check_budget(mode)
         check_explain_description(mode)
+        check_explain_raw_command(mode)
     O.sample({'rule_mode': 'first_match'})
     O.finish()
 
